@@ -68,8 +68,9 @@ Proof. unfold step, exec, start_phase; destr; reflexivity. Qed.
 Definition stale_ref (st : state) (r : fref) : Prop :=
   match r with FRoot => True | FOwn fr => fid fr < iid st end.
 
+(** (pending phases are harmless since the repair: their frames take the root frame's generation) *)
 Definition stale_thread (st : state) (th : thread) : Prop :=
-  phases th = [] /\ Forall (fun a => stale_ref st (afr a)) (stack th).
+  Forall (fun a => stale_ref st (afr a)) (stack th).
 
 Definition allstale (st : state) : Prop :=
   rootid st < iid st
@@ -84,30 +85,33 @@ Proof. intros E; destruct r; simpl; rewrite ?E; auto. Qed.
 
 Lemma stale_thread_ext st st' th : iid st' = iid st -> stale_thread st th -> stale_thread st' th.
 Proof.
-  intros E [H1 H2]; split; auto. eapply Forall_impl; [|exact H2]. intros a; apply stale_ref_ext; auto.
+  intros E H2. eapply Forall_impl; [|exact H2]. intros a; apply stale_ref_ext; auto.
 Qed.
 
 Lemma allstale_step st t b : allstale st -> allstale (step F st t b).
 Proof.
   intros (Hr & Ht & Hc). unfold step.
   destruct (nth_error (threads st) t) as [th|] eqn:Hth; [|repeat split; auto].
-  pose proof (Forall_nth_error _ _ _ _ Ht Hth) as [Hph Hst].
-  destruct th as [stk0 ar ph]; simpl in *; subst ph.
-  destruct stk0 as [|a stk]; [repeat split; auto|].
+  pose proof (Forall_nth_error _ _ _ _ Ht Hth) as Hst. unfold stale_thread in Hst.
+  destruct th as [stk0 ar ph]; simpl in *.
+  assert (Hset : forall st' s ph', iid st' = iid st -> rootid st' = rootid st -> clos st' = clos st -> threads st' = threads st ->
+             Forall (fun a => stale_ref st (afr a)) s ->
+             allstale (set_thread st' t (mkThread s false ph'))).
+  { intros st' s ph' E1 E2 E3 E4 Hs. unfold allstale, set_thread; simpl. rewrite E1, E2, E3, E4. repeat split; auto.
+    apply Forall_upd.
+    - eapply Forall_impl; [|exact Ht]. intros x Hx; apply (stale_thread_ext st); simpl; auto.
+    - unfold stale_thread; simpl. eapply Forall_impl; [|exact Hs]. intros x Hx; apply (stale_ref_ext st); simpl; auto. }
+  destruct stk0 as [|a stk].
+  { (* the next phase starts: root frame, or a frame with the root frame's (stale) generation *)
+    destruct ph as [|[f|f] rest]; [repeat split; auto| |]; unfold start_phase; apply Hset; auto;
+      repeat constructor; simpl; auto. }
   inversion Hst as [|? ? Ha Hstk]; subst.
   assert (Hcopy : stale_ref st (FOwn (copy_frame st (afr a)))) by (simpl; apply stale_frame_id; auto).
   assert (Hclos : forall c f fr, lookup c (clos st) = Some (f, fr) -> stale_ref st (FOwn fr)).
   { intros c f fr Hl. apply lookup_In in Hl. rewrite Forall_forall in Hc. apply (Hc _ Hl). }
-  assert (Hset : forall st' s, iid st' = iid st -> rootid st' = rootid st -> clos st' = clos st -> threads st' = threads st ->
-             Forall (fun a => stale_ref st (afr a)) s ->
-             allstale (set_thread st' t (mkThread s false []))).
-  { intros st' s E1 E2 E3 E4 Hs. unfold allstale, set_thread; simpl. rewrite E1, E2, E3, E4. repeat split; auto.
-    apply Forall_upd.
-    - eapply Forall_impl; [|exact Ht]. intros x Hx; apply (stale_thread_ext st); simpl; auto.
-    - split; simpl; auto. eapply Forall_impl; [|exact Hs]. intros x Hx; apply (stale_ref_ext st); simpl; auto. }
   assert (Hspawn : forall st' a', allstale st' -> iid st' = iid st -> stale_ref st (afr a') -> allstale (spawn st' a')).
   { intros st' a' (A1 & A2 & A3) E Ha'. unfold allstale, spawn; simpl. repeat split; auto.
-    apply Forall_app; split; auto. constructor; auto. split; simpl; auto. constructor; auto.
+    apply Forall_app; split; auto. constructor; auto. unfold stale_thread; simpl. constructor; auto.
     apply (stale_ref_ext st); simpl; auto. }
   destruct (fetch F a) as [i|] eqn:Hf.
   2:{ apply Hset; auto. }
@@ -117,7 +121,7 @@ Proof.
       try (apply Hset; auto; repeat constructor; auto; fail).
     + apply Hspawn; simpl; auto.
     + (* MkClos *) unfold allstale, set_thread, set_clos, add_log; simpl. repeat split; auto.
-      all: try (apply Forall_upd; auto; split; simpl; auto; fail).
+      all: try (apply Forall_upd; auto; unfold stale_thread; simpl; auto; fail).
       all: try (constructor; auto; simpl; apply stale_frame_id; auto; fail).
     + destruct (lookup c (clos st)) as [[f fr]|] eqn:Hl; apply Hset; auto; constructor; eauto.
     + destruct (lookup c (clos st)) as [[f fr]|] eqn:Hl; [|apply Hset; auto].
@@ -162,21 +166,25 @@ Lemma step_budget st t b u :
 Proof.
   intros (Hr & Ht & Hc). unfold step.
   destruct (nth_error (threads st) t) as [th|] eqn:Hth; [|lia].
-  pose proof (Forall_nth_error _ _ _ _ Ht Hth) as [Hph Hst].
-  destruct th as [stk0 ar ph]; simpl in *; subst ph.
-  destruct stk0 as [|a stk]; [lia|].
-  inversion Hst as [|? ? Ha Hstk]; subst.
+  pose proof (Forall_nth_error _ _ _ _ Ht Hth) as Hst. unfold stale_thread in Hst.
+  destruct th as [stk0 ar ph]; simpl in *.
   assert (Hbt : bud st t = if ar then 1 else 0) by (unfold bud; rewrite Hth; reflexivity).
-  assert (Hset0 : forall s, evs u (log st) + bud (set_thread st t (mkThread s false [])) u <= evs u (log st) + bud st u).
-  { intros s. rewrite (bud_set_thread st t _ u _ Hth); simpl. destruct (Nat.eqb_spec u t); subst; lia. }
+  assert (Hset0 : forall st' s ph', threads st' = threads st -> log st' = log st ->
+             evs u (log (set_thread st' t (mkThread s false ph'))) + bud (set_thread st' t (mkThread s false ph')) u <= evs u (log st) + bud st u).
+  { intros st' s ph' E1 E2. assert (Hth' : nth_error (threads st') t = Some (mkThread stk0 ar ph)) by (rewrite E1; auto).
+    rewrite (bud_set_thread st' t _ u _ Hth'); simpl. rewrite E2.
+    destruct (Nat.eqb_spec u t); subst; [lia|]. unfold bud; rewrite E1. lia. }
+  destruct stk0 as [|a stk].
+  { destruct ph as [|[f|f] rest]; [lia| |]; unfold start_phase; apply Hset0; auto. }
+  inversion Hst as [|? ? Ha Hstk]; subst.
   assert (Hset1 : forall st' s x, ar = true -> threads st' = threads st -> log st' = (t, x) :: log st ->
-             evs u (log (set_thread st' t (mkThread s false []))) + bud (set_thread st' t (mkThread s false [])) u <= evs u (log st) + bud st u).
-  { intros st' s x E E1 E2. assert (Hth' : nth_error (threads st') t = Some (mkThread (a :: stk) true [])) by (rewrite E1, <- E; auto).
+             evs u (log (set_thread st' t (mkThread s false ph))) + bud (set_thread st' t (mkThread s false ph)) u <= evs u (log st) + bud st u).
+  { intros st' s x E E1 E2. assert (Hth' : nth_error (threads st') t = Some (mkThread (a :: stk) true ph)) by (rewrite E1, <- E; auto).
     rewrite (bud_set_thread st' t _ u _ Hth'); simpl. rewrite E2, evs_cons.
     destruct (Nat.eqb_spec u t) as [->|Hne].
     - rewrite Nat.eqb_refl, Hbt, E. lia.
     - destruct (Nat.eqb_spec t u); [congruence|]. unfold bud; rewrite E1. lia. }
-  destruct (fetch F a) as [i|] eqn:Hf; [|apply Hset0].
+  destruct (fetch F a) as [i|] eqn:Hf; [|apply Hset0; auto].
   destruct ar.
   - unfold exec. destruct i; cbv beta iota zeta.
     all: try (eapply Hset1; simpl; auto; fail).
@@ -186,7 +194,7 @@ Proof.
     destruct b; [eapply Hset1; simpl; auto|].
     destruct (canc && memn (frame_done st (afr a)) (closed st)); [eapply Hset1; simpl; auto|lia].
   - pose proof (stale_frame_id st (afr a) Hr Ha) as Hlt.
-    destruct (Nat.eqb_spec (frame_id st (afr a)) (iid st)); [lia|]. apply Hset0.
+    destruct (Nat.eqb_spec (frame_id st (afr a)) (iid st)); [lia|]. apply Hset0; auto.
 Qed.
 
 Lemma steps_budget st sched u :
@@ -209,31 +217,38 @@ Proof.
     rewrite ?nth_error_upd_other by auto; auto.
 Qed.
 
-Lemma step_rootdone st t b : allstale st -> rootdone (step F st t b) = rootdone st.
-Proof.
-  intros (Hr & Ht & Hc). unfold step.
-  destruct (nth_error (threads st) t) as [th|] eqn:Hth; auto.
-  pose proof (Forall_nth_error _ _ _ _ Ht Hth) as [Hph Hst]. rewrite Hph.
-  unfold exec; destr; reflexivity.
-Qed.
+(** after stop() the current cancellation channel is closed, and steps keep it so *)
+Definition cur_closed (st : state) : Prop := memn (idone st) (closed st) = true.
+
+Lemma step_rootdone st t b :
+  rootdone (step F st t b) = rootdone st \/ rootdone (step F st t b) = idone st.
+Proof. unfold step, exec, start_phase; destr; simpl; auto. Qed.
 
 Lemma thread_of_nth st u th : nth_error (threads st) u = Some th -> thread_of st u = th.
 Proof. intros H; unfold thread_of; apply nth_error_nth; auto. Qed.
 
-Lemma stuck_ext st st' u :
-  thread_of st' u = thread_of st u -> rootdone st' = rootdone st -> closed st' = closed st ->
-  stuck F st' u = stuck F st u.
+(** a thread that is not stuck stays so when another thread starts a root phase: the root frame
+    then carries the current channel, which is closed *)
+Lemma stuck_mono st st' u :
+  thread_of st' u = thread_of st u -> closed st' = closed st ->
+  rootdone st' = rootdone st \/ (rootdone st' = idone st /\ cur_closed st) ->
+  stuck F st u = false -> stuck F st' u = false.
 Proof.
-  intros E1 E2 E3. unfold stuck. rewrite E1, E3.
+  intros E1 E3 E2. unfold stuck. rewrite E1, E3.
   destruct (stack (thread_of st u)) as [|a ?]; auto.
-  replace (frame_done st' (afr a)) with (frame_done st (afr a)); auto.
-  destruct (afr a); simpl; auto.
+  destruct (armed (thread_of st u)); simpl; auto.
+  destruct (fetch F a) as [[]|]; auto.
+  destruct (afr a) as [|fr]; simpl; auto.
+  destruct E2 as [->|[-> Hc]]; auto.
+  intros H. apply negb_false_iff, andb_true_iff in H. destruct H as [-> _].
+  unfold cur_closed in Hc. rewrite Hc. reflexivity.
 Qed.
 
 Lemma measure_ext st st' u : thread_of st' u = thread_of st u -> measure st' u = measure st u.
 Proof. intros E; unfold measure; rewrite E; auto. Qed.
 
-Lemma measure_unarmed st u s ph : thread_of st u = mkThread s false ph -> measure st u = length s.
+Lemma measure_unarmed st u s ph :
+  thread_of st u = mkThread s false ph -> measure st u = length s + 2 * length ph.
 Proof. intros E; unfold measure; rewrite E; simpl. destruct s; simpl; lia. Qed.
 
 Lemma stuck_unarmed st u s ph : thread_of st u = mkThread s false ph -> stuck F st u = false.
@@ -249,69 +264,78 @@ Lemma thread_of_spawn st a u : u < length (threads st) -> thread_of (spawn st a)
 Proof. intros H. unfold thread_of, spawn; simpl. apply app_nth1; auto. Qed.
 
 Lemma step_progress st t b u th :
-  allstale st -> nth_error (threads st) u = Some th -> stuck F st u = false ->
+  allstale st -> cur_closed st -> nth_error (threads st) u = Some th -> stuck F st u = false ->
   stuck F (step F st t b) u = false /\
   measure (step F st t b) u <= measure st u - (if t =? u then 1 else 0).
 Proof.
-  intros Hall Hu Hns. pose proof Hall as (Hr & Ht & Hc).
+  intros Hall Hcc Hu Hns. pose proof Hall as (Hr & Ht & Hc).
   destruct (Nat.eqb_spec t u) as [->|Hne].
   2:{ assert (E : thread_of (step F st t b) u = thread_of st u).
       { rewrite (thread_of_nth _ _ _ Hu). apply thread_of_nth, step_thread_other; auto. }
-      split; [rewrite <- Hns; apply stuck_ext; auto using step_rootdone, step_closed
-             |rewrite (measure_ext _ _ _ E); lia]. }
-  pose proof (Forall_nth_error _ _ _ _ Ht Hu) as [Hph Hst].
+      split; [|rewrite (measure_ext _ _ _ E); lia].
+      apply (stuck_mono st); auto using step_closed.
+      destruct (step_rootdone st t b) as [->| ->]; auto. }
+  pose proof (Forall_nth_error _ _ _ _ Ht Hu) as Hst. unfold stale_thread in Hst.
   pose proof (thread_of_nth _ _ _ Hu) as Hof.
   unfold step. rewrite Hu.
-  destruct th as [stk0 ar ph]; simpl in *; subst ph.
-  destruct stk0 as [|a stk]; [split; auto; unfold measure; rewrite Hof; simpl; lia|].
-  inversion Hst as [|? ? Ha Hstk]; subst.
-  assert (Hm : measure st u = length stk + 1 + (if ar then 2 else 0)) by (unfold measure; rewrite Hof; simpl; lia).
-  assert (Hset : forall st' s, nth_error (threads st') u = Some (mkThread (a :: stk) ar []) ->
-            length s <= length stk + (if ar then 2 else 0) ->
-            stuck F (set_thread st' u (mkThread s false [])) u = false /\
-            measure (set_thread st' u (mkThread s false [])) u <= measure st u - 1).
-  { intros st' s Hth' Hl. pose proof (thread_of_set_same st' u (mkThread s false []) _ Hth') as E.
+  destruct th as [stk0 ar ph]; simpl in *.
+  assert (Hset : forall st' s ph' th0, nth_error (threads st') u = Some th0 ->
+            length s + 2 * length ph' + 1 <= measure st u ->
+            stuck F (set_thread st' u (mkThread s false ph')) u = false /\
+            measure (set_thread st' u (mkThread s false ph')) u <= measure st u - 1).
+  { intros st' s ph' th0 Hth' Hl. pose proof (thread_of_set_same st' u (mkThread s false ph') _ Hth') as E.
     split; [eapply stuck_unarmed; eauto|]. rewrite (measure_unarmed _ _ _ _ E). lia. }
+  destruct stk0 as [|a stk].
+  { assert (Hm0 : measure st u = 2 * length ph) by (unfold measure; rewrite Hof; reflexivity).
+    destruct ph as [|[f|f] rest]; [split; auto; rewrite Hm0; simpl; lia| |];
+      unfold start_phase; eapply Hset; unf; simpl; eauto; rewrite Hm0; simpl; lia. }
+  inversion Hst as [|? ? Ha Hstk]; subst.
+  assert (Hm : measure st u = length stk + 1 + 2 * length ph + (if ar then 2 else 0)) by (unfold measure; rewrite Hof; simpl; lia).
   assert (Hsp : forall st' a', u < length (threads st') ->
             stuck F st' u = false /\ measure st' u <= measure st u - 1 ->
             stuck F (spawn st' a') u = false /\ measure (spawn st' a') u <= measure st u - 1).
   { intros st' a' Hlt [A B]. pose proof (thread_of_spawn st' a' u Hlt) as E.
-    split; [rewrite <- A; apply stuck_ext; auto|rewrite (measure_ext _ _ _ E); auto]. }
+    split; [apply (stuck_mono st'); auto|rewrite (measure_ext _ _ _ E); auto]. }
+  assert (Hlen : u < length (threads st)) by (eapply nth_error_lt; eauto).
   destruct (fetch F a) as [i|] eqn:Hf.
-  2:{ apply Hset; auto. destruct ar; lia. }
+  2:{ eapply Hset; eauto. rewrite Hm. destruct ar; lia. }
   destruct ar.
   - unfold exec. destruct i; cbv beta iota zeta.
-    all: try (apply Hset; simpl; auto; lia).
-    all: try (apply Hsp; [unf; simpl; rewrite length_upd; eapply nth_error_lt; eauto|apply Hset; simpl; auto; lia]).
-    all: try (destruct (lookup c (clos st)) as [[f fr]|]; apply Hset; simpl; auto; lia).
+    all: try (eapply Hset; simpl; eauto; rewrite Hm; simpl; lia).
+    all: try (apply Hsp; [unf; simpl; rewrite length_upd; auto|eapply Hset; simpl; eauto; rewrite Hm; simpl; lia]).
+    all: try (destruct (lookup c (clos st)) as [[f fr]|]; eapply Hset; simpl; eauto; rewrite Hm; simpl; lia).
     all: try (destruct (lookup c (clos st)) as [[f fr]|];
-              [apply Hsp; [unf; simpl; rewrite length_upd; eapply nth_error_lt; eauto|]|]; apply Hset; simpl; auto; lia).
-    all: try (destruct b; apply Hset; simpl; auto; lia).
-    destruct b; [apply Hset; simpl; auto; lia|].
+              [apply Hsp; [unf; simpl; rewrite length_upd; auto|]|]; eapply Hset; simpl; eauto; rewrite Hm; simpl; lia).
+    all: try (destruct b; eapply Hset; simpl; eauto; rewrite Hm; simpl; lia).
+    destruct b; [eapply Hset; simpl; eauto; rewrite Hm; simpl; lia|].
     unfold stuck in Hns. rewrite Hof in Hns; simpl in Hns. rewrite Hf in Hns.
-    apply negb_false_iff in Hns. rewrite Hns. apply Hset; simpl; auto; lia.
+    apply negb_false_iff in Hns. rewrite Hns. eapply Hset; simpl; eauto; rewrite Hm; simpl; lia.
   - pose proof (stale_frame_id st (afr a) Hr Ha) as Hlt.
-    destruct (Nat.eqb_spec (frame_id st (afr a)) (iid st)); [lia|]. apply Hset; auto; simpl; lia.
+    destruct (Nat.eqb_spec (frame_id st (afr a)) (iid st)); [lia|]. eapply Hset; simpl; eauto; rewrite Hm; simpl; lia.
 Qed.
 
 Lemma steps_progress st sched u th :
-  allstale st -> nth_error (threads st) u = Some th -> stuck F st u = false ->
+  allstale st -> cur_closed st -> nth_error (threads st) u = Some th -> stuck F st u = false ->
   measure (steps F st sched) u <= measure st u - occ u sched.
 Proof.
-  revert st th; induction sched as [|[t b] sched IH]; intros st th Hall Hu Hns; simpl; [unfold occ; simpl; lia|].
-  destruct (step_progress st t b u th Hall Hu Hns) as [A B].
+  revert st th; induction sched as [|[t b] sched IH]; intros st th Hall Hcc Hu Hns; simpl; [unfold occ; simpl; lia|].
+  destruct (step_progress st t b u th Hall Hcc Hu Hns) as [A B].
   assert (exists th', nth_error (threads (step F st t b)) u = Some th') as [th' Hu'].
   { destruct (Nat.eq_dec u t) as [->|Hne]; [|eexists; apply step_thread_other; eauto].
     destruct (nth_error (threads (step F st t b)) t) eqn:E; eauto.
     apply nth_error_None in E. pose proof (nth_error_lt _ _ _ Hu).
     assert (length (threads st) <= length (threads (step F st t b))); [|lia].
     clear. unfold step, exec, start_phase; destr; unf; simpl; rewrite ?app_length, ?length_upd; simpl; lia. }
-  specialize (IH _ _ (allstale_step _ t b Hall) Hu' A).
+  assert (Hcc' : cur_closed (step F st t b)) by (unfold cur_closed; rewrite step_idone, step_closed; auto).
+  specialize (IH _ _ (allstale_step _ t b Hall) Hcc' Hu' A).
   unfold occ in *; simpl. destruct (t =? u); simpl; lia.
 Qed.
 
-Lemma measure_zero_exited st u : measure st u = 0 -> stack (thread_of st u) = [].
-Proof. unfold measure. destruct (stack (thread_of st u)); auto. simpl; lia. Qed.
+Lemma measure_zero_exited st u : measure st u = 0 -> exited st u = true.
+Proof.
+  unfold measure, exited. destruct (stack (thread_of st u)); [|simpl; lia].
+  destruct (phases (thread_of st u)); auto. simpl; lia.
+Qed.
 
 
 (** ---------------------------------------------------------------- every reachable state *)
@@ -400,63 +424,53 @@ Proof.
   intros st H. apply IH, inv_action; auto.
 Qed.
 
-Lemma stop_allstale st : inv st -> no_pending st = true -> allstale (do_action F st AStop).
+Lemma stop_allstale st : inv st -> allstale (do_action F st AStop).
 Proof.
-  intros (Hr & Ht & Hc) Hp. unfold allstale; simpl. repeat split; [lia| |].
-  - unfold no_pending in Hp. rewrite forallb_forall in Hp. rewrite Forall_forall in *.
-    intros th Hin. split.
-    + specialize (Hp _ Hin). destruct (phases th); auto; discriminate.
-    + specialize (Ht _ Hin). eapply Forall_impl; [|exact Ht].
-      intros a; unfold le_ref, stale_ref; simpl; destruct (afr a); auto; lia.
+  intros (Hr & Ht & Hc). unfold allstale; simpl. repeat split; [lia| |].
+  - rewrite Forall_forall in *. intros th Hin. unfold stale_thread.
+    specialize (Ht _ Hin). eapply Forall_impl; [|exact Ht].
+    intros a; unfold le_ref, stale_ref; simpl; destruct (afr a); auto; lia.
   - eapply Forall_impl; [|exact Hc]. simpl; intros; lia.
 Qed.
 
-(** C09, the gate: in every reachable state in which no init function / main is pending, after
-    [stop] every thread performs at most one more operation, whatever the schedule and the data. *)
+Lemma stop_cur_closed st : cur_closed (do_action F st AStop).
+Proof. unfold cur_closed; simpl. rewrite Nat.eqb_refl; auto. Qed.
+
+(** C09, the gate: in every reachable state, after [stop] every thread performs at most one more
+    operation, whatever the schedule and the data. *)
 Lemma bud_le_1 st u : bud st u <= 1.
 Proof. unfold bud. destruct (nth_error (threads st) u) as [th|]; [destruct (armed th)|]; lia. Qed.
 
 Lemma gate_ops h sched u :
-  no_pending (run F fresh h) = true ->
   evs u (log (steps F (do_action F (run F fresh h) AStop) sched)) <= evs u (log (run F fresh h)) + 1.
 Proof.
-  intros Hp. pose proof (steps_budget _ sched u (stop_allstale _ (inv_run h) Hp)) as H.
+  pose proof (steps_budget _ sched u (stop_allstale _ (inv_run h))) as H.
   pose proof (bud_le_1 (do_action F (run F fresh h) AStop) u). simpl in *. lia.
 Qed.
 
 Lemma gate_new_threads h sched u :
-  no_pending (run F fresh h) = true -> length (threads (run F fresh h)) <= u ->
+  length (threads (run F fresh h)) <= u ->
   evs u (log (steps F (do_action F (run F fresh h) AStop) sched)) <= evs u (log (run F fresh h)).
 Proof.
-  intros Hp Hu. pose proof (steps_budget _ sched u (stop_allstale _ (inv_run h) Hp)) as H.
+  intros Hu. pose proof (steps_budget _ sched u (stop_allstale _ (inv_run h))) as H.
   assert (bud (do_action F (run F fresh h) AStop) u = 0).
   { unfold bud; simpl. apply nth_error_None in Hu. rewrite Hu. auto. }
   simpl in *. lia.
 Qed.
 
 Lemma gate_exits h sched u th :
-  no_pending (run F fresh h) = true ->
   nth_error (threads (run F fresh h)) u = Some th ->
   stuck F (do_action F (run F fresh h) AStop) u = false ->
-  length (stack th) + 2 <= occ u sched ->
+  length (stack th) + 2 * length (phases th) + 2 <= occ u sched ->
   exited (steps F (do_action F (run F fresh h) AStop) sched) u = true.
 Proof.
-  intros Hp Hu Hns Hocc.
-  pose proof (stop_allstale _ (inv_run h) Hp) as Hall.
+  intros Hu Hns Hocc.
+  pose proof (stop_allstale _ (inv_run h)) as Hall.
   assert (Hu' : nth_error (threads (do_action F (run F fresh h) AStop)) u = Some th) by (simpl; auto).
-  pose proof (steps_progress _ sched u th Hall Hu' Hns) as Hm.
-  assert (measure (do_action F (run F fresh h) AStop) u <= length (stack th) + 2).
+  pose proof (steps_progress _ sched u th Hall (stop_cur_closed _) Hu' Hns) as Hm.
+  assert (measure (do_action F (run F fresh h) AStop) u <= length (stack th) + 2 * length (phases th) + 2).
   { unfold measure. rewrite (thread_of_nth _ _ _ Hu'). destruct (stack th); simpl; [lia|]. destruct (armed th); lia. }
-  assert (Hz : measure (steps F (do_action F (run F fresh h) AStop) sched) u = 0) by lia.
-  apply measure_zero_exited in Hz.
-  assert (Hall' : allstale (steps F (do_action F (run F fresh h) AStop) sched)).
-  { clear - Hall. revert Hall. generalize (do_action F (run F fresh h) AStop).
-    induction sched as [|[t b] sched IH]; simpl; auto. intros st H. apply IH, allstale_step; auto. }
-  unfold exited. rewrite Hz.
-  destruct Hall' as (_ & Ht & _). unfold thread_of.
-  destruct (nth_in_or_default u (threads (steps F (do_action F (run F fresh h) AStop) sched)) (mkThread [] false [])) as [Hin|E].
-  - rewrite Forall_forall in Ht. destruct (Ht _ Hin) as [E _]. rewrite E; auto.
-  - rewrite E; auto.
+  apply measure_zero_exited. lia.
 Qed.
 
 
@@ -482,10 +496,9 @@ Proof.
 Qed.
 
 Lemma gate_ticks h sched u :
-  no_pending (run F fresh h) = true ->
   tks u (log (steps F (do_action F (run F fresh h) AStop) sched)) <= tks u (log (run F fresh h)) + 1.
 Proof.
-  intros Hp. pose proof (gate_ops h sched u Hp) as H.
+  pose proof (gate_ops h sched u) as H.
   destruct (steps_log (do_action F (run F fresh h) AStop) sched) as [ext E].
   rewrite E in *. simpl in *. rewrite evs_app in H. rewrite tks_app.
   pose proof (tks_le_evs u ext). lia.
@@ -549,7 +562,7 @@ Proof.
       apply (Hset (set_rootdone st (idone st)) [mkAct FRoot f 0] false rest []); simpl; auto.
       constructor; auto. split; simpl; auto.
     - inversion Hph; subst. unfold start_phase.
-      apply (Hset st [mkAct (FOwn (mkFrame (iid st) (idone st))) f 0] false rest []); simpl; auto.
+      apply (Hset st [mkAct (FOwn (mkFrame (rootid st) (idone st))) f 0] false rest []); simpl; auto.
       constructor; auto. split; simpl; auto. }
   inversion Hst as [|? ? [Ha1 Ha2] Hstk]; subst.
   unfold erase, gstep, fetch; cbn [stack armed phases map afn apc].
@@ -621,14 +634,13 @@ End P.
 Lemma gate_partial F h sched u :
   let s1 := run F fresh h in
   let s2 := steps F (do_action F s1 AStop) sched in
-  no_pending s1 = true ->
   evs u (log s2) <= evs u (log s1) + 1
   /\ tks u (log s2) <= tks u (log s1) + 1
   /\ (length (threads s1) <= u -> evs u (log s2) <= evs u (log s1))
   /\ (forall th, nth_error (threads s1) u = Some th -> stuck F (do_action F s1 AStop) u = false ->
-        length (stack th) + 2 <= occ u sched -> exited s2 u = true).
+        length (stack th) + 2 * length (phases th) + 2 <= occ u sched -> exited s2 u = true).
 Proof.
-  intros s1 s2 Hp. repeat split.
+  intros s1 s2. repeat split.
   - apply gate_ops; auto.
   - apply gate_ticks; auto.
   - intros; apply gate_new_threads; auto.
@@ -640,26 +652,23 @@ Qed.
 Lemma gate_partial_inhabited :
   let s1 := run F_init fresh (session P_main_only ++ alone 0 8) in
   let s2 := steps F_init (do_action F_init s1 AStop) (repeat (0, false) 6) in
-  no_pending s1 = true /\ tks 0 (log s1) = 1 /\ tks 0 (log s2) = 2 /\ exited s2 0 = true.
+  stuck F_init (do_action F_init s1 AStop) 0 = false
+  /\ tks 0 (log s1) = 1 /\ tks 0 (log s2) = 2 /\ exited s2 0 = true.
 Proof. vm_compute. auto. Qed.
 
-(** ---------------------------------------------------------------- C09: refutations *)
+(** ---------------------------------------------------------------- C09: regression and refutations *)
 
-(** cancel inside the first init(): the second init() and main() run to completion afterwards *)
-Lemma initlist_refuted :
+(** the init-list witness after the repair (interp.run: newFrame(cf, n, cf.runid())): cancel inside
+    the first init() with a second init() and main() pending; the tick in flight still happens,
+    the pending functions get the root frame's stale generation and execute nothing, the thread exits *)
+Lemma initlist_regression :
   let s1 := run F_init fresh H_init in
   let s2 := steps F_init (do_action F_init s1 AStop) (repeat (0, false) 40) in
   no_pending s1 = false
-  /\ ticks_of (new_events s1 s2) = [1; 2; 2; 3; 3; 3]
-  /\ evs 0 (log s2) = evs 0 (log s1) + 6
+  /\ ticks_of (new_events s1 s2) = [1]
+  /\ evs 0 (log s2) = evs 0 (log s1) + 1
   /\ exited s2 0 = true.
 Proof. vm_compute. auto. Qed.
-
-Lemma contract_refuted : ~ C09_contract.
-Proof.
-  intros H. destruct (H F_init H_init (repeat (0, false) 40) 0) as [H1 _].
-  vm_compute in H1. lia.
-Qed.
 
 (** REPL style: the cancelled statements run in the root frame, whose generation the next Execute
     overwrites: the old goroutine comes back to life and finishes its statements *)
